@@ -31,8 +31,16 @@ def main():
         coq_build(["Model/C15Cases.vo"])
     n = 300 if thorough else 70
     # ---- simulation: all views at every strategy call
-    scs = [simgen.gen_scenario(rng, {"nstrats": [2, 3], "nmarkets": [1, 2], "p_place": 0.6, "p_manage": 0.5, "max_upd": 9}) for _ in range(n)]
+    scs = [simgen.gen_scenario(rng, {"nstrats": [2, 3], "nmarkets": [1, 2], "p_place": 0.7, "p_manage": 0.7, "max_upd": 9}) for _ in range(n)]
     for s in scs:
+        if rng.random() < 0.4:
+            # requests of one strategy call batched in a transaction: several orders per package (e.g. two replaces answered together)
+            for e in s["script"]:
+                names_managed = {a[1] for a in e["acts"] if a[0] in ("cancel", "update", "replace")}
+                if len(names_managed) >= 2 and rng.random() < 0.7:
+                    # every managed order of this call is replaced: one REPLACE package with several orders
+                    e["acts"] = [a for a in e["acts"] if a[0] == "place"] + [["replace", nm, rng.choice(simgen.TICKS_BP[3:22]), {"mv": None}] for nm in sorted(names_managed)]
+                e["acts"] = [["txn_begin"]] + e["acts"] + [["txn_end"]]
         if rng.random() < 0.4:
             s["clients"].append(dict(s["clients"][0]))
             for sp in s["strategies"][1:]:
